@@ -9,6 +9,7 @@
  *          by ly_ctx_new_ylmem(<dir>): r<0|1> context created, m<0|1> same implemented modules / revisions / enabled
  *          features, c<0|1> same compiled print of every implemented module, i<0|1> every module of the description
  *          (module and import-only-module) is in the new context, h<0|1> the two contexts have ... (not a law: reported)
+ *   <id> ctx jenkins <hex>         ->  <id> ok <lyht_hash(key, len) as 8 hex digits>
  *   <id> ctx ylreal <dir-hex> <modules-hex> <featmode>
  *       real modules from a search directory; <modules>: comma separated names, loaded in order with
  *       featmode 0: no feature, 1: all, 2: alternating.  Reply: ok c<bits per load: counter changed> h<bits: hash changed>
@@ -184,6 +185,11 @@ main(void)
             if (!dir || !mods) { vp_reply(id, "err BadHex"); free(dir); free(mods); continue; }
             ylreal(id, dir, mods, atoi(r.tok[5]));
             free(dir); free(mods);
+        } else if (!strcmp(op, "jenkins") && r.ntok == 4) {
+            size_t n; char *k = vp_unhex(r.tok[3], &n);
+            if (!k) { vp_reply(id, "err BadHex"); continue; }
+            vp_reply(id, "ok %08x", lyht_hash(k, n));
+            free(k);
         } else if (!strcmp(op, "leakcheck")) {
             vp_reply(id, "ok %d", VP_LEAKCHECK());
         } else {
